@@ -17,6 +17,8 @@ type Obligation struct {
 	Detail  string
 	Tags    []string
 	NFacts  int
+	Facts   []*Term // the facts in scope when the obligation was generated (x.facts[:NFacts] of its epoch)
+	Epoch   int
 	PC      *Term
 	Goal    *Term
 	Pos     string
@@ -101,7 +103,9 @@ type Exec struct {
 	permIdx       map[int]bool
 	curLoopClk    *Term
 	evalTerms     []*Term
+	epoch         int
 	arrEmbElem    map[string]bool
+	ifaceUsedCon  map[string]int
 	inTypeInv     int
 	ownObjs       map[int]bool
 	invAssumed    map[string]bool
@@ -139,6 +143,7 @@ func NewExec(p *Prog, fn *ssa.Function) *Exec {
 	x.jsonSeen = map[int]bool{}
 	x.oblFacts = map[int]bool{}
 	x.permIdx = map[int]bool{}
+	x.ifaceUsedCon = map[string]int{}
 	x.invAssumed = map[string]bool{}
 	x.invWritten = map[string]invObj{}
 	return x
@@ -224,12 +229,16 @@ func (x *Exec) oblige(fr *Frame, st *State, class, detail string, tags []string,
 	x.oblCount[key]++
 	name := fmt.Sprintf("%s#%d", key, x.oblCount[key])
 	full := x.tt.Implies(st.pc, goal)
-	o := &Obligation{Name: name, Class: class, Detail: detail, Tags: tags, NFacts: len(x.facts), PC: st.pc, Goal: goal, Pos: x.posStr(x.curPos), Text: text}
+	o := &Obligation{Name: name, Class: class, Detail: detail, Tags: tags, NFacts: len(x.facts), Facts: x.facts[:len(x.facts):len(x.facts)], Epoch: x.epoch, PC: st.pc, Goal: goal, Pos: x.posStr(x.curPos), Text: text}
 	if isTrue(full) {
 		o.Builtin = true
 	}
 	x.obls = append(x.obls, o)
-	// assume after assert
+	// assume after assert - except for goals that are false by construction (explicit panics, effects of
+	// uncontracted callees): assuming those would silently make the rest of the path infeasible
+	if isFalse(goal) {
+		return o
+	}
 	n0 := len(x.facts)
 	x.addFactRaw(full)
 	if len(x.facts) > n0 {
@@ -323,6 +332,8 @@ func (x *Exec) runOnce(tag, caseParam string, caseLen int) {
 			x.addFactRaw(x.evalBool(env, c.Expr))
 		}()
 	}
+	// interface contracts this method implements: its own preconditions follow from the interface's
+	x.refinesPre(fr, st)
 	// requires
 	if x.con != nil {
 		for _, c := range x.con.Requires {
@@ -563,7 +574,7 @@ func (x *Exec) runLoop(fr *Frame, L *Loop, ins []edge) []edge {
 		}
 	}
 	if unroll {
-		return x.runLoopUnrolled(fr, L, ins)
+		return x.runLoopUnrolled(fr, L, ins, spec)
 	}
 	return x.runLoopInv(fr, L, ins, spec)
 }
@@ -593,9 +604,13 @@ func constInt(c *ssa.Const) (int64, bool) {
 	return c.Int64(), true
 }
 
-func (x *Exec) runLoopUnrolled(fr *Frame, L *Loop, ins []edge) []edge {
+func (x *Exec) runLoopUnrolled(fr *Frame, L *Loop, ins []edge, spec *LoopSpec) []edge {
 	var exits []edge
 	cur := ins
+	var snap *seenSnap
+	if spec != nil && spec.Unroll && len(spec.Invariants) > 0 && fr.depth == 0 && !x.quiet {
+		snap = x.snapSeen()
+	}
 	for iter := 0; ; iter++ {
 		if iter > 40 {
 			panic(fmt.Sprintf("loop %d of %s: unrolling did not terminate (needs an invariant)", L.Ordinal, funcKey(fr.fn)))
@@ -603,6 +618,9 @@ func (x *Exec) runLoopUnrolled(fr *Frame, L *Loop, ins []edge) []edge {
 		s := x.enterBlock(fr, L.Header, cur)
 		if s == nil {
 			break
+		}
+		if spec != nil && spec.Unroll && len(spec.Invariants) > 0 {
+			x.cutIteration(fr, L, s, spec, iter, snap)
 		}
 		ex, backs := x.runRegionFromHeader(fr, L, s)
 		exits = append(exits, ex...)
@@ -984,11 +1002,17 @@ func (x *Exec) finish(fr *Frame) {
 		} else if con.HasModifies && !con.ModAll {
 			x.checkFrame(fr, rs.st)
 		}
+		if fr.depth == 0 {
+			x.refinesPost(fr, rs.st, rs.vals, false)
+		}
 	}
 	if len(fr.panics) > 0 {
 		// deferred calls run on the panic paths too (their preconditions and effects are checked there);
 		// one path at a time while there are few of them (a merged panic state is a large case split for the solver)
 		groups := [][]*State{fr.panics}
+		if os.Getenv("GOVC_DEBUG") != "" {
+			fmt.Fprintf(os.Stderr, "debug: %s has %d panic exits\n", funcKey(fr.fn), len(fr.panics))
+		}
 		if len(fr.panics) <= 16 && anyDefers(fr.panics) {
 			groups = nil
 			for _, p := range fr.panics {
@@ -1010,6 +1034,9 @@ func (x *Exec) finish(fr *Frame) {
 				env := x.contractEnv(fr, ps, fr.entry, nil)
 				g := x.evalBool(env, c.Expr)
 				x.oblige(fr, ps, "on_panic-ensures", fmt.Sprintf("%d", c.Ord), c.Tags, g, c.Text)
+			}
+			if fr.depth == 0 && con != nil {
+				x.refinesPost(fr, ps, nil, true)
 			}
 		}
 	}
@@ -1326,4 +1353,202 @@ func anyDefers(ss []*State) bool {
 		}
 	}
 	return false
+}
+
+
+// ifaceContractsFor: interface contracts (iface T.m) of in-package interfaces that fn implements.
+func (x *Exec) ifaceContractsFor(fn *ssa.Function) []*Contract {
+	if fn.Signature.Recv() == nil || len(fn.Params) == 0 {
+		return nil
+	}
+	var out []*Contract
+	var keys []string
+	for k, c := range x.prog.Cons.ByKey {
+		if c.Iface {
+			keys = append(keys, k)
+		}
+	}
+	sort.Strings(keys)
+	for _, k := range keys {
+		i := strings.LastIndex(k, ".")
+		if i < 0 || k[i+1:] != fn.Name() {
+			continue
+		}
+		tn, ok := x.prog.Main.Pkg.Scope().Lookup(k[:i]).(*types.TypeName)
+		if !ok {
+			continue
+		}
+		it, ok := tn.Type().Underlying().(*types.Interface)
+		if !ok {
+			continue
+		}
+		if types.Implements(fn.Params[0].Type(), it) {
+			out = append(out, x.prog.Cons.ByKey[k])
+		}
+	}
+	return out
+}
+
+// ifaceEnv: environment for the clauses of interface contract c, seen from inside implementation fr.fn.
+func (x *Exec) ifaceEnv(fr *Frame, c *Contract, st, old *State, results []Value) *Env {
+	e := x.contractEnv(fr, st, old, results)
+	fn := fr.fn
+	names := c.Params
+	if len(names) == 0 {
+		names = []string{"recv"}
+		for _, p := range fn.Params[1:] {
+			names = append(names, p.Name())
+		}
+	}
+	for i, n := range names {
+		if i >= len(fn.Params) {
+			break
+		}
+		if i == 0 {
+			e.vars[n] = x.makeIface(fr.entry, fr.args[0], fn.Params[0].Type())
+			e.vtypes[n] = tAny
+			continue
+		}
+		e.vars[n] = fr.args[i]
+		e.vtypes[n] = fn.Params[i].Type()
+	}
+	return e
+}
+
+func (x *Exec) refinesPre(fr *Frame, st *State) {
+	if x.con == nil || x.quiet {
+		return
+	}
+	for _, ic := range x.ifaceContractsFor(fr.fn) {
+		n := len(x.facts)
+		// side facts emitted once per term while evaluating these clauses are discarded with them: roll the seen-sets back
+		sAddr, sLoaded, sJSON, sInvA, sChild, sNilMap := copyMap(x.addrSeen), copyMap(x.loadedSeen), copyMap(x.jsonSeen), copyMap(x.invAssumed), copyMap(x.childSeen), copyMap(x.nilMapSeen)
+		sChildren := map[int][]*Term{}
+		for k, v := range x.childrenOf {
+			sChildren[k] = append([]*Term{}, v...)
+		}
+		sGlobals := len(x.globals)
+		for _, c := range ic.Requires {
+			env := x.ifaceEnv(fr, ic, st, fr.entry, nil)
+			env.foldMode = 2
+			x.addFactRaw(x.evalBool(env, c.Expr))
+		}
+		for _, c := range x.con.Requires {
+			env := x.contractEnv(fr, st, fr.entry, nil)
+			g := x.evalBool(env, c.Expr)
+			x.obligeNoAssume(fr, st, "refines-pre", fmt.Sprintf("%s:%d", ic.Key, c.Ord), c.Tags, g, "precondition follows from the interface contract "+ic.Key+": "+c.Text)
+		}
+		x.truncFacts(n)
+		x.addrSeen, x.loadedSeen, x.jsonSeen, x.invAssumed, x.childSeen, x.nilMapSeen, x.childrenOf = sAddr, sLoaded, sJSON, sInvA, sChild, sNilMap, sChildren
+		x.globals = x.globals[:sGlobals]
+	}
+}
+
+func (x *Exec) refinesPost(fr *Frame, st *State, results []Value, panicPath bool) {
+	if x.con == nil || x.quiet {
+		return
+	}
+	for _, ic := range x.ifaceContractsFor(fr.fn) {
+		cls := ic.Ensures
+		class := "refines-post"
+		if panicPath {
+			cls = ic.PanicEnsures
+			class = "refines-panic"
+		}
+		for _, c := range cls {
+			env := x.ifaceEnv(fr, ic, st, fr.entry, results)
+			env.foldMode = 1
+			g := x.evalBool(env, c.Expr)
+			x.oblige(fr, st, class, fmt.Sprintf("%s:%d", ic.Key, c.Ord), c.Tags, g, "interface contract "+ic.Key+": "+c.Text)
+		}
+	}
+}
+
+
+// cutIteration: "unroll with cut". The loop is unrolled (so that indices and dynamic types stay concrete), but at the
+// head of every iteration the invariant is proved, the heaps under the validation-effects discipline are abstracted
+// to what the discipline guarantees (loopMix: cells kept for the callers hold their entry values, everything else is
+// unknown) and the invariant is assumed again. Each iteration is then verified from the invariant alone, which keeps
+// the queries of long unrolled loops small. Heaps outside the discipline are left exact.
+func (x *Exec) cutIteration(fr *Frame, L *Loop, st *State, spec *LoopSpec, iter int, snap *seenSnap) {
+	lname := fmt.Sprintf("loop%d", L.Ordinal)
+	for _, in := range L.Header.Instrs {
+		if p, ok := in.(*ssa.Phi); ok && p.Comment == "rangeindex" {
+			st.names[fmt.Sprintf("idx%d", L.Ordinal)] = st.regs[p]
+			x.nameTypes[fmt.Sprintf("idx%d", L.Ordinal)] = p.Type()
+		}
+	}
+	x.curPC = st.pc
+	savedLoopClk := x.curLoopClk
+	x.curLoopClk = st.clk
+	defer func() { x.curLoopClk = savedLoopClk }()
+	for _, c := range spec.Invariants {
+		env := x.contractEnv(fr, st, fr.entry, nil)
+		g := x.evalBool(env, c.Expr)
+		x.oblige(fr, st, "inv-cut", fmt.Sprintf("%s:%d@%d", lname, c.Ord, iter), c.Tags, g, c.Text)
+	}
+	if !x.topEffects() {
+		return
+	}
+	for _, n := range x.effectHeaps(st) {
+		srt := x.heapSorts[n]
+		if srt == "" {
+			continue
+		}
+		x.loopMix(fr, st, n, srt, fmt.Sprintf("%s.%d", lname, iter))
+	}
+	if snap != nil {
+		// scope cut: what earlier iterations established is summarised by the invariant; their facts leave the
+		// solver context (obligations already generated keep their own fact lists)
+		if snap.clk == nil {
+			snap.clk = st.clk
+		}
+		x.scopeCut(snap)
+	}
+	st.clk = x.advanceClk(st)
+	if snap != nil {
+		x.addFactRaw(x.tt.Gt(st.clk, snap.clk)) // the clock chain of the dropped iterations
+	}
+	for _, c := range spec.Invariants {
+		env := x.contractEnv(fr, st, fr.entry, nil)
+		x.addFact(x.evalBool(env, c.Expr))
+	}
+}
+
+type seenSnap struct {
+	nfacts                                        int
+	addr, loaded, json                            map[int]bool
+	invA, child, nilMap                           map[string]bool
+	children                                      map[int][]*Term
+	globals                                       int
+	clk                                           *Term
+}
+
+func (x *Exec) snapSeen() *seenSnap {
+	sn := &seenSnap{nfacts: len(x.facts), addr: copyMap(x.addrSeen), loaded: copyMap(x.loadedSeen), json: copyMap(x.jsonSeen),
+		invA: copyMap(x.invAssumed), child: copyMap(x.childSeen), nilMap: copyMap(x.nilMapSeen), children: map[int][]*Term{}, globals: len(x.globals)}
+	for k, v := range x.childrenOf {
+		sn.children[k] = append([]*Term{}, v...)
+	}
+	return sn
+}
+
+// scopeCut drops the facts added since the snapshot (new backing array: fact lists held by obligations stay intact)
+// and rolls the once-per-term seen-sets back so that side facts are emitted again when needed.
+func (x *Exec) scopeCut(sn *seenSnap) {
+	nf := make([]*Term, sn.nfacts, sn.nfacts+512)
+	copy(nf, x.facts[:sn.nfacts])
+	for i := sn.nfacts; i < len(x.facts); i++ {
+		delete(x.oblFacts, i)
+		delete(x.permIdx, i)
+	}
+	x.facts = nf
+	x.epoch++
+	x.addrSeen, x.loadedSeen, x.jsonSeen = copyMap(sn.addr), copyMap(sn.loaded), copyMap(sn.json)
+	x.invAssumed, x.childSeen, x.nilMapSeen = copyMap(sn.invA), copyMap(sn.child), copyMap(sn.nilMap)
+	x.childrenOf = map[int][]*Term{}
+	for k, v := range sn.children {
+		x.childrenOf[k] = append([]*Term{}, v...)
+	}
+	x.globals = x.globals[:sn.globals]
 }
